@@ -198,8 +198,9 @@ func init() {
 		func() {
 			defer func() {
 				if p := recover(); p != nil {
-					if _, ok := p.(targetPanic); ok {
+					if tp, ok := p.(targetPanic); ok {
 						panicked = true
+						fr.r.facts["panic"] = tp.String()
 						return
 					}
 					panic(p)
